@@ -10,7 +10,8 @@ from ..core import log
 PID = "C05"
 L = lambda c, f=0, g=0, kd="": {"c": c, "f": f, "g": g, "kd": kd}
 HDR = [L("diff", 1, 1, "mod"), L("index"), L("mmm", 1), L("ppp", 1)]
-STARTS = [(1, 1), (9, 10), (99, 100), (999, 1000), (999999, 1000000), (1000003, 1000007), (0, 1), (1, 0), (12345, 12)]
+STARTS = [(1, 1), (9, 10), (99, 100), (999, 1000), (999999, 1000000), (1000003, 1000007), (0, 1), (1, 0), (12345, 12),
+          (9997, 97), (98, 3), (7, 9998)]      # one side gains a digit inside the hunk, the other has fewer digits
 FORMATS = {
     "default": [],
     "custom1": ["--line-numbers-left-format", "{nm:>5}|", "--line-numbers-right-format", "{np:<5}:"],
@@ -63,7 +64,7 @@ def run(tier):
     nmax = 5 if tier == "quick" else 6
     bodies = [list(b) for n in range(1, nmax + 1) for b in itertools.product(("minus", "plus", "zero"), repeat=n)]
     jobs = []
-    modes = ["unified", "sbs", "sbs-wrap", "unified-narrow"]
+    modes = ["unified", "sbs", "sbs-wrap", "unified-narrow", "sbs-wrap-cross"]
     for i, body in enumerate(bodies):
         reps = 3 if tier == "quick" else 8
         for rep in range(reps):
@@ -78,7 +79,7 @@ def run(tier):
                    (sn if sn != 0 or not any(c in ("plus", "zero") for c in b) else 1)) for b, (so, sn) in zip(bs, st)]
             mode = modes[(i + rep) % len(modes)]
             fmt = list(FORMATS)[(i // 3 + rep) % len(FORMATS)]
-            long_mask = [r2.random() < 0.3 for _ in range(7)] if "wrap" in mode or "narrow" in mode else [False]
+            long_mask = [r2.random() < (0.5 if "cross" in mode else 0.3) for _ in range(7)] if "wrap" in mode or "narrow" in mode else [False]
             fam = [r2.random() < 0.6 for _ in range(5)]
             jobs.append((bs, st, long_mask, r2.random() < 0.3, fam, mode, fmt))
 
@@ -89,6 +90,9 @@ def run(tier):
             return gitskin.rs_args(50) + ["--line-numbers"] + FORMATS[fmt]
         if mode == "sbs":
             return gitskin.rs_args(220) + ["--side-by-side"]
+        if mode == "sbs-wrap-cross":      # both placeholders in both panels' formats
+            return gitskin.rs_args(100) + ["--side-by-side", "--wrap-max-lines", "3", "--line-numbers-left-format", "{nm}:{np}|",
+                                           "--line-numbers-right-format", "{nm}:{np}|"]
         return gitskin.rs_args(90) + ["--side-by-side", "--wrap-max-lines", "3"]
 
     def one(job):
@@ -116,10 +120,14 @@ def run(tier):
                 p = gitskin.parse_sbs_row(b)
                 if p:
                     show = lambda k, panel: "first" if k else ("cont" if panel[0].strip() else "none")
-                    out_rows.append({"kl": p["kl"], "nm": p["nm"], "kr": p["kr"], "np": p["np"], "h": len(hdr),
+                    nm_, npl, nmr, np_ = p["nm"], 0, 0, p["np"]
+                    if mode == "sbs-wrap-cross":
+                        nm_, npl, nmr, np_ = gitskin.cross_numbers(b, 50)
+                    out_rows.append({"kl": p["kl"], "nm": nm_, "kr": p["kr"], "np": np_, "npl": npl, "nmr": nmr, "h": len(hdr),
                                      "z": "zero" in p["lk"] or "zero" in p["rk"] or "lnZero" in {c[1] for c in gitskin.kinded_cells(b)[0]},
                                      "sl": show(p["kl"], p["lp"]), "sr": show(p["kr"], p["rp"])})
         events.append({"run": i, "mode": "unified" if mode.startswith("unified") else "sbs", "hunks": hunks, "rows": out_rows,
+                       "fmt": [True, True, True, True] if mode == "sbs-wrap-cross" else [True, False, False, True],
                        "hdr": hdr, "code": 999 if r.timed_out else r.code})
     n = max(1, min(6, len(events) // 1500 + 1))
     outs = core.pmap(lambda ch: tlc.validate_trace("Trace_Numbers", ch, heap="3g"), [events[i::n] for i in range(n)], jobs=n)
